@@ -7,7 +7,7 @@
    flagged deleted and has no REMOVE event in flight; REMOVE events in flight are for distinct,
    existing, not-yet-deleted entries. *)
 From Coq Require Import ZArith List Bool.
-From Verif Require Import Base.Word64 Model.Sketch Model.Expiry Model.Wheel Model.Policy Model.Store Proof.StoreMap Proof.StoreInv.
+From Verif Require Import Base.Word64 Model.Sketch Model.Expiry Model.Wheel Model.Policy Model.Store Proof.StoreMap Proof.StoreInv Gen.Consts Proof.RBShapeP.
 Import ListNotations.
 Open Scope Z_scope.
 
@@ -60,3 +60,11 @@ Theorem c05_example :
   nextid (fst r) = 4 /\ length (smap (fst r)) = 1%nat /\ queue (fst r) = [] /\ snd r = 3.
 Proof. exact c05_example_holds. Qed.
 Print Assumptions c05_example.
+
+(* "the value it held when it left": c05_note_is_departure reads the value in the step that removes the entry; in the code
+   the removal is a shard-lock section and the read must come after it.  In the source of this run every read of the entry's
+   value in removeEntry lies in the REMOVED case or under `if deleted` after shard.delete(entry) (scraped; seeded changes
+   C19c / C05d move it in front of the lock and are reported by this theorem and by TestVerifEvictOverlap) *)
+Theorem c05_value_read_after_unlink : c_remove_value_owned = true.
+Proof. exact remove_value_owned_as_written. Qed.
+Print Assumptions c05_value_read_after_unlink.
